@@ -19,6 +19,9 @@ pub fn install_hook() {
         let msg = if let Some(s) = info.payload().downcast_ref::<&str>() { s.to_string() }
                   else if let Some(s) = info.payload().downcast_ref::<String>() { s.clone() } else { "?".into() };
         // budget exhaustion is not a defect of the code under test: no backtrace needed (and they are frequent)
+        // a panic that cannot unwind (the standard library's UB checks, a panic inside a destructor) aborts the process:
+        // no monitor will get to report it, so say what it was on stderr for the orchestrator
+        if msg.contains("unsafe precondition") || msg.contains("cannot unwind") { eprintln!("NON-UNWINDING PANIC at {file}:{line}: {msg}"); }
         let func = if msg.starts_with("VERIF_BUDGET") { String::new() } else { innermost_asca_fn(&format!("{}", std::backtrace::Backtrace::force_capture())) };
         LAST.with(|l| *l.borrow_mut() = Some(PanicSite { file, line, msg, func }));
     }));
